@@ -1,7 +1,7 @@
 //! C12 — k-means: soundness and exactness of the BBD-tree pruning predicate; prediction assigns the nearest centroid.
 //! KMeans::fit and the whole filtering pass are outside the claim (DESIGN 6/C12).
 use crate::common::*;
-use smartcore::verif_hooks::{verif_bbd_prune, verif_kmeans_from_centroids};
+use smartcore::verif_hooks::{verif_bbd_clustering, verif_bbd_prune, verif_kmeans_from_centroids};
 
 // box = center +- radius (integer lattice, scaled by 2 so that half-integer centres/radii are included),
 // best/test centroids on the lattice, x any lattice point of the box
@@ -137,3 +137,65 @@ kpredict!(c12_predict_k3_d1, 3, 1, 1, 6);
 kpredict!(c12_predict_k2_d2, 2, 2, 1, 6);
 // @vp name=c12_predict_k3_d2 prop=C12 tier=thorough t=2400 fns=KMeans::predict,Euclidian::squared_distance size=k=3,d=2,2-rows dom=lattice(-4..4),f64 stubs=traps,no_format
 kpredict!(c12_predict_k3_d2, 3, 2, 2, 7);
+
+// ---------------------------------------------------------------------------------------------
+// the tree-accelerated assignment pass (BBDTree::new + clustering) on a FIXED small data set, for EVERY set of k lattice
+// centroids: each row is attached to one of its nearest centroids, and counts / sums / distortion equal those of that assignment.
+// (Data are concrete so that the tree shape is concrete; the solver quantifies over the centroids, incl. coincident and far-away ones.)
+// Best effort, thorough tier only: the candidate lists of the filtering recursion have symbolic length and n = 4, k = 2 did not finish in 15 min.
+// ---------------------------------------------------------------------------------------------
+macro_rules! bbd_assign {
+    ($name:ident, $data:expr, $n:expr, $k:expr, $lo:expr, $hi:expr, $unw:expr) => {
+        vp_proof! {
+            #[cfg_attr(kani, kani::unwind($unw))]
+            fn $name() {
+                const N: usize = $n;
+                const K: usize = $k;
+                let xi: [i32; N] = $data;
+                let mut xa = [0f64; N];
+                for i in 0..N {
+                    xa[i] = xi[i] as f64;
+                }
+                let x = DenseMatrix::from_array(N, 1, &xa);
+                let mut ci = [0i32; K];
+                let mut cents: Vec<Vec<f64>> = Vec::new();
+                for j in 0..K {
+                    let (a, b) = lat64($lo, $hi);
+                    ci[j] = a;
+                    cents.push(vec![b]);
+                }
+                let (dist, sums, counts, mem) = verif_bbd_clustering(&x, &cents[..]);
+                vp_assert!(mem.len() == N && counts.len() == K && sums.len() == K, "C12:assignment-output-lengths");
+                let mut want_counts = [0usize; K];
+                let mut want_sums = [0i32; K];
+                let mut want_dist = 0i32;
+                for i in 0..N {
+                    let m = mem[i];
+                    vp_assert!(m < K, "C12:assignment-membership-in-range");
+                    let dm = (xi[i] - ci[m]) * (xi[i] - ci[m]);
+                    for j in 0..K {
+                        vp_assert!(dm <= (xi[i] - ci[j]) * (xi[i] - ci[j]), "C12:assignment-attaches-every-row-to-a-nearest-centroid");
+                    }
+                    want_counts[m] += 1;
+                    want_sums[m] += xi[i];
+                    want_dist += dm;
+                }
+                let mut tot = 0usize;
+                for j in 0..K {
+                    vp_assert!(counts[j] == want_counts[j], "C12:assignment-counts-equal-exhaustive");
+                    vp_assert!(sums[j].len() == 1 && sums[j][0] == want_sums[j] as f64, "C12:assignment-sums-equal-exhaustive");
+                    tot += counts[j];
+                }
+                vp_assert!(tot == N, "C12:assignment-counts-sum-to-n");
+                vp_assert!(dist == want_dist as f64, "C12:assignment-distortion-equals-exhaustive");
+                vp_reached!();
+            }
+        }
+    };
+}
+// @vp name=c12_bbd_assign_n4_k2 prop=C12 tier=thorough mem=30 t=3600 fns=BBDTree::new,build_node,clustering,filter,prune,get_node_cost size=data=[0,0,4,9],k=2,d=1 dom=centroids-lattice(-2..11),f64
+bbd_assign!(c12_bbd_assign_n4_k2, [0, 0, 4, 9], 4, 2, -2, 11, 8);
+// @vp name=c12_bbd_assign_n5_k3 prop=C12 tier=thorough mem=30 t=3600 fns=BBDTree::new,build_node,clustering,filter,prune,get_node_cost size=data=[0,0,3,8,8],k=3,d=1 dom=centroids-lattice(-2..10),f64
+bbd_assign!(c12_bbd_assign_n5_k3, [0, 0, 3, 8, 8], 5, 3, -2, 10, 9);
+// @vp name=c12_bbd_assign_n6_k3 prop=C12 tier=thorough t=3600 mem=30 fns=BBDTree::new,build_node,clustering,filter,prune,get_node_cost size=data=[0,0,3,3,3,8],k=3,d=1 dom=centroids-lattice(-2..10),f64
+bbd_assign!(c12_bbd_assign_n6_k3, [0, 0, 3, 3, 3, 8], 6, 3, -2, 10, 10);
